@@ -1,14 +1,22 @@
 //! vxn: native harness (bounded contract checks, counterexample search, replay) over the real library.
 mod bin;
+#[cfg(not(feature = "binonly"))]
 mod c01;
+#[cfg(not(feature = "binonly"))]
 mod c10;
+#[cfg(not(feature = "binonly"))]
 mod det;
+#[cfg(not(feature = "binonly"))]
 mod dirs;
+#[cfg(not(feature = "binonly"))]
 pub mod gen;
 pub mod json;
+#[cfg(not(feature = "binonly"))]
 mod lines;
+#[cfg(not(feature = "binonly"))]
 #[allow(non_snake_case, unused_variables, unreachable_patterns, dead_code)]
 pub mod oracle_gen;
+#[cfg(not(feature = "binonly"))]
 mod rep;
 pub mod report;
 
@@ -52,8 +60,11 @@ fn main() {
         }
     }
     let cmd = args[1].as_str();
+    #[cfg(not(feature = "binonly"))]
     let mods: [fn(&str, &[String], &str, u64) -> Option<i32>; 7] =
         [c01::dispatch, c10::dispatch, rep::dispatch, dirs::dispatch, bin::dispatch, lines::dispatch, det::dispatch];
+    #[cfg(feature = "binonly")]
+    let mods: [fn(&str, &[String], &str, u64) -> Option<i32>; 1] = [bin::dispatch];
     for m in mods.iter() {
         if let Some(code) = m(cmd, &rest, &tier, seed) {
             std::process::exit(code);
